@@ -107,7 +107,7 @@ macro_rules! merge_impl {
     };
 
     ($lhs:ident, $rhs:ident, $name:ident, vec) => {
-        if $rhs.$name.is_empty() {
+        if !$rhs.$name.is_empty() {
             $lhs.$name = $rhs.$name.clone();
         }
     };
@@ -181,10 +181,18 @@ impl Parse for StructEntryNode {
         debug_assert_eq!(node.tag_name(), STRUCT_ENTRY);
 
         let attr_base = node.parse(node_builder, value_builder, cache_builder);
-        let elem_base = node.parse(node_builder, value_builder, cache_builder);
+        let mut elem_base: NodeElementBase =
+            node.parse(node_builder, value_builder, cache_builder);
 
-        let p_invalidators =
-            node.parse_while(P_INVALIDATOR, node_builder, value_builder, cache_builder);
+        // `NodeElementBase::parse` consumes the `pInvalidator` elements that directly follow
+        // the element base; in a `StructEntry` these are the entry's own invalidators.
+        let mut p_invalidators = std::mem::take(&mut elem_base.p_invalidators);
+        p_invalidators.extend(node.parse_while::<NodeId>(
+            P_INVALIDATOR,
+            node_builder,
+            value_builder,
+            cache_builder,
+        ));
         let access_mode = node
             .parse_if(ACCESS_MODE, node_builder, value_builder, cache_builder)
             .unwrap_or(AccessMode::RO);
